@@ -549,8 +549,8 @@ def run(tier):
     rep = core.Report("C09", tier)
     quick = tier == "quick"
     r = core.model_check("Lifecycle.tla", "mc/Lifecycle_ref.cfg", timeout=600)
-    rep.add_mc("Lifecycle reference: all histories of <=3 fits, MemUnchanged / ParamsUnchanged / RefitIsFresh", r)
-    for v, inv in (("stale", "RefitIsFresh"), ("writeback", "ParamsUnchanged"), ("inplace", "MemUnchanged")):
+    rep.add_mc("Lifecycle reference: all histories of <=4 fit / follow-up calls, MemUnchanged / ParamsUnchanged / RefitIsFresh / OutputIsCurrent", r)
+    for v, inv in (("stale", "RefitIsFresh"), ("writeback", "ParamsUnchanged"), ("inplace", "MemUnchanged"), ("stalecache", "OutputIsCurrent")):
         rr = core.model_check("Lifecycle.tla", "mc/Lifecycle_%s.cfg" % v, coverage=False, timeout=600)
         if rr["error"] != "invariant-violated":
             raise core.Machinery("implementation-shaped variant %s does not violate %s" % (v, inv))
